@@ -171,10 +171,16 @@ func RandomSpec(r *rand.Rand, typ string, o SpecOpts) *TokenSpec {
 	switch typ {
 	case "dlg":
 		s.Aud = PickPrincipal(r, o.AnyAlgPct)
+		if r.IntN(8) == 0 {
+			s.Aud = s.Iss
+		}
 		if has(70) {
-			if r.IntN(2) == 0 {
+			switch r.IntN(5) {
+			case 0, 1:
 				s.Sub = s.Iss
-			} else {
+			case 2:
+				s.Sub = s.Aud
+			default:
 				s.Sub = PickPrincipal(r, o.AnyAlgPct)
 			}
 		}
@@ -197,9 +203,17 @@ func RandomSpec(r *rand.Rand, typ string, o SpecOpts) *TokenSpec {
 		s.Sub = PickPrincipal(r, o.AnyAlgPct)
 		if has(40) {
 			s.Aud = PickPrincipal(r, o.AnyAlgPct)
-			if s.Aud == s.Sub {
-				s.Aud = nil
+			// coinciding principals (audience = subject, audience = issuer) are legal inputs: whatever
+			// the constructor makes of them must survive sealing
+			switch r.IntN(6) {
+			case 0:
+				s.Aud = s.Sub
+			case 1:
+				s.Aud = s.Iss
 			}
+		}
+		if r.IntN(8) == 0 {
+			s.Sub = s.Iss
 		}
 		if has(80) {
 			for _, k := range Keys(r, 1+r.IntN(5)) {
